@@ -72,7 +72,7 @@ Fixpoint pp_tok (en : env) (e : expr) {struct e} : list tok :=
                     | [] => [TLB; TColon; TRB]
                     | _ => [TLB] ++ sep_toks (pair_toks (map (pp_tok en) items)) ++ [TRB]
                     end
-  | EObj _ _ _ => [TInt 0]  (* placeholder: object properties are outside the text theorems (text_ok, lists_even) *)
+  | EObj _ _ _ | EMenu _ _ _ => [TInt 0]  (* placeholder: object properties are outside the text theorems (text_ok, lists_even) *)
   end.
 
 (* ---- the parser ---- *)
